@@ -835,6 +835,72 @@ func (w *pworld) permFamily(id string, n int) {
 	}
 }
 
+// subset family (C01/C02): every guardian-set size up to nmax, every position of the own key, every subset of the
+// other guardians signing; observations delivered in random order, own loopback at a random position.
+func (w *pworld) subsetFamily(id string, nmax int) {
+	r := w.r
+	cnt := 0
+	for n := 1; n <= nmax; n++ {
+		set := w.randKeys(n)
+		gs := &common.GuardianSet{Index: uint32(n)}
+		for _, x := range set {
+			gs.Keys = append(gs.Keys, x.addr)
+		}
+		for ownPos := 0; ownPos < n; ownPos++ {
+			for mask := 0; mask < 1<<uint(n); mask++ {
+				if mask&(1<<uint(ownPos)) != 0 {
+					continue // the own signature is delivered via the loopback
+				}
+				cnt++
+				var emitter vaa.Address
+				r.Read(emitter[:])
+				k := w.randMsg(emitter, uint64(cnt))
+				if len(k.Payload) == 0 {
+					k.Payload = []byte{7}
+				}
+				w.reset(fmt.Sprintf("%s.%d", id, cnt), set[ownPos])
+				if !w.setUpdate(gs) {
+					return
+				}
+				v := w.mkVAA(k, gs.Index)
+				d := v.SigningMsg().Bytes()
+				var evs []int
+				for j := 0; j < n; j++ {
+					if mask&(1<<uint(j)) != 0 {
+						evs = append(evs, j)
+					}
+				}
+				evs = append(evs, ownPos)
+				r.Shuffle(len(evs), func(a, b int) { evs[a], evs[b] = evs[b], evs[a] })
+				early := r.Intn(len(evs) + 1) // how many arrive before the local observation (own loopback cannot)
+				sent := false
+				for i, j := range evs {
+					if i == early && !sent {
+						if !w.message(k) {
+							return
+						}
+						sent = true
+					}
+					if j == ownPos && !sent {
+						if !w.message(k) {
+							return
+						}
+						sent = true
+					}
+					if !w.observation(w.obsFor(set[j], d)) {
+						return
+					}
+				}
+				if !sent {
+					if !w.message(k) {
+						return
+					}
+				}
+			}
+		}
+	}
+}
+
 func TestVerifProcessor(t *testing.T) {
 	seed, _ := strconv.ParseInt(os.Getenv("VERIF_SEED"), 10, 64)
 	thorough := os.Getenv("VERIF_TIER") == "thorough"
@@ -875,6 +941,11 @@ func TestVerifProcessor(t *testing.T) {
 	}
 	for i := 0; i < nperm; i++ {
 		w.permFamily(fmt.Sprintf("p%d", i), 1+w.r.Intn(5))
+	}
+	if thorough {
+		w.subsetFamily("q", 6)
+	} else {
+		w.subsetFamily("q", 4)
 	}
 	df, _ := os.Create(filepath.Join(out, "processor.dist"))
 	for k, v := range w.dist {
